@@ -79,6 +79,24 @@ def check_crc(ctx, prog, rule):
                     # no `true` after a failed file, and `true` needs the loop to run out (every element passed)
                     okall = True
     ctx.ob(rule, "conjunction/check_files", okall, "directory mode is files.iter().all(check_file)")
+    # which files the directory mode looks at: the extension test is case-insensitive (SCAN.E57 is an E57 file)
+    lf = prog.fns.get("list_e57_files")
+    if lf is not None:
+        ctx.fn_seen(lf)
+        Rl = Resolver(lf, max_depth=24)
+        verdict, desc = None, "no comparison of the extension with \"e57\" found"
+        for g_ in [lf] + list(prog.closures_of(lf)):
+            Rg_ = Resolver(g_, max_depth=24) if g_ is not lf else Rl
+            for bi, t in g_.calls(lambda c, t: c.rsplit("::", 1)[-1] in ("eq", "ne", "eq_ignore_ascii_case", "ends_with") and len(t["args"]) >= 2):
+                ops = [Rg_.operand(a) for a in t["args"][:2]]
+                lits = [strip(o) for o in ops]
+                if not any(x[0] == "const" and isinstance(x[2], str) and x[2].lower().lstrip(".") == "e57" for x in lits):
+                    continue
+                c = callee_of(t)
+                folded = c.endswith("eq_ignore_ascii_case") or any(y[0] == "call" and y[1].rsplit("::", 1)[-1] in ("to_ascii_lowercase", "to_lowercase", "to_ascii_uppercase", "to_uppercase", "make_ascii_lowercase") for o in ops for y in leaves(o))
+                verdict = folded if verdict is None else (verdict and folded)
+                desc = "%s(%s)" % (short(c), ", ".join(tree_str(strip_deep(o))[:60] for o in ops))
+        ctx.ob(rule, "extension-case-insensitive/list_e57_files", verdict, "directory mode selects files by %s (the comparison must ignore case, otherwise *.E57 files are silently skipped and never checked)" % desc)
     m = prog.fn("main")
     ctx.fn_seen(m)
     Rm = Resolver(m)
@@ -256,6 +274,10 @@ def from_xyz(ctx, prog, rule):
 
 def to_xyz(ctx, prog, rule):
     m = prog.fn("main")
+    # the XYZ output goes through a BufWriter: every successful exit passes a checked flush of it
+    import blob_rules
+    nb = blob_rules.buffered_sinks_flushed(ctx, prog, rule, paths=("main",), label="to-xyz-output")
+    ctx.floor(rule, "buffered output writers of e57-to-xyz", nb, 1, semantic=False)
     ctx.fn_seen(m)
     R = Resolver(m)
     # options
